@@ -110,6 +110,27 @@ def lexeme_zoo():
                 yield li, ci, c.replace("{}", v)
 
 
+PUNCT_BASES = [
+    "CREATE TABLE t (a INT, b TEXT DEFAULT 'x', c INT NOT NULL)", "ALTER TABLE t ADD COLUMN c INT", "ALTER TABLE t ADD c INT",
+    "CREATE PROCEDURE p @a INT = 1, @b INT AS SELECT 1", "CREATE FUNCTION f(a INT, b TEXT) RETURNS INT AS 'x'", "DECLARE @t TABLE (a INT, b INT)",
+    "INSERT INTO t (a, b) VALUES (1, 2)", "UPDATE t SET a = 1, b = 2 WHERE c = 3", "MERGE INTO t USING s ON t.k = s.k WHEN MATCHED THEN UPDATE SET a = 1",
+    "SELECT a, b FROM t WHERE a = 1", "CREATE INDEX i ON t (a, b)", "CREATE VIEW v (a, b) AS SELECT 1, 2",
+]
+PUNCT = ["=", ",", "(", ")", ".", "*", ";", ":", "::", "@", "?", "[", "]", "{", "}", "-", "+", "<", ">", "!", "|", "||", "&", "%", "^", "~", "#", "$", "\\", "'", '"', "`"]
+
+
+def punctuation_neighbourhood():
+    """(base, position, punct) -> text with one punctuation lexeme inserted at, or replacing the lexeme at, a boundary of a DDL / DML
+    base statement: a definition that lost its name or gained a stray operator, in every dialect"""
+    for bi, base in enumerate(PUNCT_BASES):
+        toks = stmts.split_tokens(base)
+        for pos in range(1, len(toks) + 1):
+            for pi, pch in enumerate(PUNCT):
+                yield bi, pos, pi, stmts.join_tokens(toks[:pos] + [pch] + toks[pos:])
+                if pos < len(toks):
+                    yield bi, pos, pi, stmts.join_tokens(toks[:pos] + [pch] + toks[pos + 1:])
+
+
 def type_zoo(ctx, all_d, stride):
     import sqlglot
     from sqlglot.errors import SqlglotError, ErrorLevel
@@ -344,6 +365,18 @@ def worker(ctx):
                 break
         else:
             run_input(ctx, text, [all_d[(n * 7 + j * 11) % len(all_d)] for j in range(3)], rng, f"lexeme:{li}:{ci}")
+    # ---- (1e) punctuation neighbourhood of DDL / DML bases, every dialect at the default level -------------------
+    from sqlglot.errors import ErrorLevel as _EL
+
+    pstride = spec.get("punct_stride", 1)
+    for n, (bi, pos, pi, text) in enumerate(punctuation_neighbourhood()):
+        if n % ctx.nshards != ctx.shard or (n // ctx.nshards) % pstride:
+            continue
+        if ctx.expired():
+            break
+        ctx.count("punctuation_neighbourhood_inputs")
+        for d in all_d:
+            observe(ctx, text, d, _EL.IMMEDIATE, f"punct:{bi}:{pos}")
     # ---- (1c) type zoo: every type keyword x 0..4 parameters, parsed in a few dialects, written to every dialect ----
     type_zoo(ctx, all_d, spec.get("zoo_stride", 1))
     # ---- (2) seeded -------------------------------------------------------------------
